@@ -249,6 +249,9 @@ void parsec_hash_table_unlock_bucket_handle_impl(parsec_hash_table_t *ht,
     parsec_atomic_rwlock_rdunlock(&ht->rw_lock);
 
     if( resize ) {
+#if defined(PARSEC_VERIF)
+        PARSEC_VERIF_YIELD(PARSEC_VERIF_SITE_HASH_TABLE);
+#endif
         parsec_atomic_rwlock_wrlock(&ht->rw_lock);
         if( cur_head == ht->rw_hash ) {
             /* Barring ABA problems, nobody resized the hash table;
@@ -476,6 +479,9 @@ void *parsec_hash_table_nolock_find_handle(parsec_hash_table_t *ht,
         parsec_hash_table_nolock_insert(ht, current_item);
     }
 #else
+#if defined(PARSEC_VERIF)
+    PARSEC_VERIF_YIELD(PARSEC_VERIF_SITE_HASH_TABLE);
+#endif
     item = parsec_hash_table_nolock_find_in_old_tables(ht, handle->key);
 #endif
     return item;
@@ -517,6 +523,9 @@ void *parsec_hash_table_nolock_remove_handle(parsec_hash_table_t *ht,
         }
         prev_item = current_item;
     }
+#if defined(PARSEC_VERIF)
+    PARSEC_VERIF_YIELD(PARSEC_VERIF_SITE_HASH_TABLE);
+#endif
     return parsec_hash_table_nolock_remove_from_old_tables(ht, handle->key);
 }
 
@@ -547,6 +556,9 @@ void parsec_hash_table_insert_impl(parsec_hash_table_t *ht, parsec_hash_table_it
     parsec_atomic_rwlock_rdunlock(&ht->rw_lock);
 
     if( resize ) {
+#if defined(PARSEC_VERIF)
+        PARSEC_VERIF_YIELD(PARSEC_VERIF_SITE_HASH_TABLE);
+#endif
         parsec_atomic_rwlock_wrlock(&ht->rw_lock);
         if( cur_head == ht->rw_hash ) {
             /* Barring ABA problems, nobody resized the hash table;
